@@ -4,7 +4,8 @@
 //! same bytes as the CLI".
 //!
 //! Restricted to projects with `schemaModuleSpecifier` set (no CLI-private specifier glue has
-//! to be re-implemented) and without plugins; only generated *text* is compared, not mappings
+//! to be re-implemented) and without plugins; only generated *text* (declarations and the server
+//! schema module) is compared, not mappings
 //! (those depend on `generate.rs`'s private file-index table).
 
 #[path = "/repo/crates/cli/src/builtins.rs"]
@@ -20,6 +21,8 @@ use std::path::{Path, PathBuf};
 pub struct LibOut {
     pub schema: String,
     pub resolvers: String,
+    /// text of the `serverGraphqlOutput` module
+    pub server_graphql: String,
     /// operation file path -> declaration text
     pub ops: BTreeMap<String, String>,
 }
@@ -90,6 +93,17 @@ pub fn lib_generate(config_text: &str, schema_files: &[(String, String)], op_fil
         printer.print_document(&resolved, no_plugins).map_err(|e| format!("resolver printer: {e}"))?;
         writer.into_buffers().buffer
     };
+    let server_graphql = {
+        use nitrogql_printer::GraphQLPrinter;
+        let mut buffer = String::new();
+        buffer.push_str("// generated by nitrogql\n");
+        buffer.push_str("export const schema = ");
+        let mut writer = sourcemap_writer::JsStringWriter::new(&mut buffer);
+        cli_builtins::remove_builtins(&resolved).print_graphql(&mut writer);
+        drop(writer);
+        buffer.push_str(";\n");
+        buffer
+    };
     let mut ops = BTreeMap::new();
     for (p, doc) in &resolved_ops {
         let mut writer = sourcemap_writer::SourceWriter::new();
@@ -98,5 +112,5 @@ pub fn lib_generate(config_text: &str, schema_files: &[(String, String)], op_fil
         nitrogql_printer::print_types_for_operation_document(options, &schema, doc, &mut writer);
         ops.insert(p.to_string_lossy().into_owned(), writer.into_buffers().buffer);
     }
-    Ok(LibOut { schema: schema_text, resolvers: resolvers_text, ops })
+    Ok(LibOut { schema: schema_text, resolvers: resolvers_text, server_graphql, ops })
 }
